@@ -37,7 +37,7 @@ Lemma exec_with_thr i rest c t :
 Proof.
   destruct i as [h r|h|h|h' h|p r|p r|p r|r]; cbn [exec with_thr subs pend held thr evs].
   - destruct (add_match r (subs c) (evs c)). reflexivity.
-  - destruct (take_first h (held c)) as [[r hl]|]; [|reflexivity]. destruct (remove_match r (subs c) (evs c)). reflexivity.
+  - destruct (take_last h (held c)) as [[r hl]|]; [|reflexivity]. destruct (remove_match r (subs c) (evs c)). reflexivity.
   - reflexivity.
   - reflexivity.
   - destruct (has_any p (held c)); reflexivity.
@@ -70,7 +70,7 @@ Proof. intros A B. induction B as [|x y z B IH S]; [exact A|]. eapply steps_snoc
 Definition hstep (i : instr) (hl : list (hid * rule)) : list (hid * rule) :=
   match i with
   | ISub h r => hl ++ [(h, r)]
-  | IAsyncDrop h => match take_first h hl with Some (_, hl') => hl' | None => hl end
+  | IAsyncDrop h => match take_last h hl with Some (_, hl') => hl' | None => hl end
   | IDrop h => filter (fun x => negb (holds h x)) hl
   | IClone h' h => hl ++ map (fun r => (h', r)) (rules_of h hl)
   | IOwnerCheck _ _ | IOwnerAdd _ _ | ILeak _ => hl
@@ -79,7 +79,7 @@ Definition hstep (i : instr) (hl : list (hid * rule)) : list (hid * rule) :=
 
 Definition pstep (i : instr) (rest : prog) (hl : list (hid * rule)) : prog :=
   match i with
-  | IAsyncDrop h => match take_first h hl with Some _ => IAsyncDrop h :: rest | None => rest end
+  | IAsyncDrop h => match take_last h hl with Some _ => IAsyncDrop h :: rest | None => rest end
   | IOwnerCheck p r => if has_any p hl then rest else IOwnerAdd p r :: rest
   | IOwnerAdd p r => IOwnerSet p r :: rest
   | _ => rest
@@ -90,7 +90,7 @@ Lemma exec_held i rest c :
 Proof.
   destruct i as [h r|h|h|h' h|p r|p r|p r|r]; cbn [exec hstep pstep].
   - destruct (add_match r (subs c) (evs c)). auto.
-  - destruct (take_first h (held c)) as [[r hl]|]; [|auto]. destruct (remove_match r (subs c) (evs c)). auto.
+  - destruct (take_last h (held c)) as [[r hl]|]; [|auto]. destruct (remove_match r (subs c) (evs c)). auto.
   - auto.
   - auto.
   - destruct (has_any p (held c)); auto.
@@ -115,33 +115,32 @@ Proof.
 Qed.
 
 (* the effect of each whole operation on who holds what = the API-level bookkeeping of the specification *)
-Lemma take_first_none h : forall l, take_first h l = None -> filter (fun x => negb (holds h x)) l = l.
+Lemma take_last_none h : forall l, take_last h l = None -> filter (fun x => negb (holds h x)) l = l.
 Proof.
-  induction l as [|x t IH]; [reflexivity|]. cbn [take_first filter].
-  destruct (holds h x) eqn:E; [discriminate|]. cbn [negb].
-  destruct (take_first h t) as [[r t']|]; [discriminate|]. intros _. rewrite IH; reflexivity.
+  induction l as [|x t IH]; [reflexivity|]. cbn [take_last filter].
+  destruct (take_last h t) as [[r t']|]; [discriminate|].
+  destruct (holds h x) eqn:E; [discriminate|]. cbn [negb]. intros _. rewrite IH; reflexivity.
 Qed.
 
-Lemma take_first_some h : forall l r l', take_first h l = Some (r, l') ->
+Lemma take_last_some h : forall l r l', take_last h l = Some (r, l') ->
   filter (fun x => negb (holds h x)) l = filter (fun x => negb (holds h x)) l' /\ List.length l = S (List.length l').
 Proof.
-  induction l as [|x t IH]; intros r l' H; cbn [take_first] in H; [discriminate|].
-  destruct (holds h x) eqn:E.
-  - inversion H; subst. cbn [filter]. rewrite E. cbn [negb]. auto.
-  - destruct (take_first h t) as [[r1 t']|] eqn:T; [|discriminate]. inversion H; subst.
-    destruct (IH r t' eq_refl) as [F L]. cbn [filter length]. rewrite E. cbn [negb]. rewrite F, L. auto.
+  induction l as [|x t IH]; intros r l' H; cbn [take_last] in H; [discriminate|].
+  destruct (take_last h t) as [[r1 t']|] eqn:T.
+  - inversion H; subst. destruct (IH r t' eq_refl) as [F L]. cbn [filter length]. rewrite F, L. auto.
+  - destruct (holds h x) eqn:E; [|discriminate]. inversion H; subst. cbn [filter]. rewrite E. cbn [negb]. auto.
 Qed.
 
 Lemma async_drop_final h : forall n hl hl', List.length hl <= n ->
   held_final hl [IAsyncDrop h] hl' -> hl' = filter (fun x => negb (holds h x)) hl.
 Proof.
   induction n as [|n IH]; intros hl hl' L H; inversion H as [|? ? ? ? H1]; subst; cbn [hstep pstep] in H1.
-  - destruct (take_first h hl) as [[r l1]|] eqn:T.
-    + destruct (take_first_some h hl r l1 T) as [_ L1]. lia.
-    + inversion H1; subst. symmetry. apply take_first_none. exact T.
-  - destruct (take_first h hl) as [[r l1]|] eqn:T.
-    + destruct (take_first_some h hl r l1 T) as [F L1]. rewrite F. apply IH; [lia|exact H1].
-    + inversion H1; subst. symmetry. apply take_first_none. exact T.
+  - destruct (take_last h hl) as [[r l1]|] eqn:T.
+    + destruct (take_last_some h hl r l1 T) as [_ L1]. lia.
+    + inversion H1; subst. symmetry. apply take_last_none. exact T.
+  - destruct (take_last h hl) as [[r l1]|] eqn:T.
+    + destruct (take_last_some h hl r l1 T) as [F L1]. rewrite F. apply IH; [lia|exact H1].
+    + inversion H1; subst. symmetry. apply take_last_none. exact T.
 Qed.
 
 Lemma op_final hl o hl' : plain_op o = true -> held_final hl (prog_of o) hl' -> hl' = objs_after_op hl o.
@@ -180,7 +179,7 @@ Lemma exec_evs i rest c :
 Proof.
   destruct i as [h r|h|h|h' h|p r|p r|p r|r]; cbn [exec].
   - pose proof (add_match_evs r (subs c) (evs c)) as A. destruct (add_match r (subs c) (evs c)). exact A.
-  - destruct (take_first h (held c)) as [[r hl]|]; [|auto].
+  - destruct (take_last h (held c)) as [[r hl]|]; [|auto].
     pose proof (remove_match_evs r (subs c) (evs c)) as A. destruct (remove_match r (subs c) (evs c)). exact A.
   - auto.
   - auto.
@@ -227,7 +226,7 @@ Qed.
 Lemma down_hstep i hl r : down_instr i = true -> lv (hstep i hl) r <= lv hl r.
 Proof.
   unfold lv. destruct i as [h r0|h|h|h' h|p r0|p r0|p r0|r0]; cbn [down_instr hstep]; try discriminate; intros _.
-  - destruct (take_first h hl) as [[r1 l1]|] eqn:T; [|lia]. rewrite (take_first_count h hl r1 l1 T r). lia.
+  - destruct (take_last h hl) as [[r1 l1]|] eqn:T; [|lia]. rewrite (take_last_count h hl r1 l1 T r). lia.
   - rewrite (drop_partition h r hl). lia.
 Qed.
 
@@ -240,7 +239,7 @@ Qed.
 Lemma down_pstep i rest hl : down_instr i = true -> forallb down_instr rest = true -> forallb down_instr (pstep i rest hl) = true.
 Proof.
   destruct i as [h r0|h|h|h' h|p r0|p r0|p r0|r0]; cbn [down_instr pstep]; try discriminate; intros _ R; try exact R.
-  destruct (take_first h hl); [|exact R]. cbn [forallb down_instr]. exact R.
+  destruct (take_last h hl); [|exact R]. cbn [forallb down_instr]. exact R.
 Qed.
 
 Lemma prog_direction o : plain_op o = true ->
@@ -368,7 +367,7 @@ Lemma exec_pend i rest c :
 Proof.
   destruct i as [h r|h|h|h' h|p r|p r|p r|r]; cbn [exec]; try (rewrite app_nil_r).
   - destruct (add_match r (subs c) (evs c)). reflexivity.
-  - destruct (take_first h (held c)) as [[r hl]|]; [|reflexivity]. destruct (remove_match r (subs c) (evs c)). reflexivity.
+  - destruct (take_last h (held c)) as [[r hl]|]; [|reflexivity]. destruct (remove_match r (subs c) (evs c)). reflexivity.
   - reflexivity.
   - reflexivity.
   - destruct (has_any p (held c)); reflexivity.
@@ -383,7 +382,7 @@ Proof. unfold pend_step. destruct (remove_match r (subs c) (evs c)). reflexivity
 Lemma no_drop_pstep i rest hl : no_drop i = true -> forallb no_drop rest = true -> forallb no_drop (pstep i rest hl) = true.
 Proof.
   destruct i as [h r0|h|h|h' h|p r0|p r0|p r0|r0]; cbn [no_drop pstep]; try discriminate; intros _ R; try exact R.
-  - destruct (take_first h hl); [|exact R]. cbn [forallb no_drop]. exact R.
+  - destruct (take_last h hl); [|exact R]. cbn [forallb no_drop]. exact R.
   - destruct (has_any p hl); [exact R|]. cbn [forallb no_drop]. exact R.
 Qed.
 
